@@ -77,7 +77,9 @@ fn dec_prog(s: &Sexp) -> Option<Vec<Step>> {
 }
 
 const PRE: &str = "C19-MSG-";
-const POST: &str = "-END";
+/// The tail of every message holds what a formatter could mangle: quotes, a backslash, a tab, a line
+/// break, braces and a non-ASCII letter.  A message counts as present only when it occurs verbatim.
+const POST: &str = "-\"q\" 'a' back\\slash\ttab\nsecond line {0} {{}} \u{e9}-END";
 
 fn message(k: u64) -> String {
     format!("{PRE}{k}{POST}")
